@@ -191,3 +191,87 @@ Proof.
   intro F. destruct (ai_init_ok k) as (n & E & Hn). destruct (ai_run_ok ops n Hn F) as (len & E2 & H2).
   exists n, len. unfold ai_max in *. repeat split; try assumption; lia.
 Qed.
+
+(* ---------------------------------------------------------------------------------------- *)
+(* (3) uc_trim                                                                               *)
+
+Lemma uc_len_pos t : nonul t -> t <> [] -> (1 <= UcDefs.uc_len t)%nat.
+Proof.
+  intros F Hne. destruct t as [|b r]; [congruence|]. inversion F as [|? ? Hb _]; subst. unfold byte_ok in Hb.
+  unfold UcDefs.uc_len, UcDefs.uc_len_b. cbn [hd0].
+  destruct (negb (bit b 128 && bit b 64)).
+  - destruct (N.ltb_spec 0 b); lia.
+  - destruct (negb (bit b 32)); [lia|]. destruct (negb (bit b 16)); [lia|]. destruct (negb (bit b 8)); lia.
+Qed.
+
+Lemma uc_len_head a c : a <> [] -> UcDefs.uc_len (a ++ c) = UcDefs.uc_len a.
+Proof. destruct a; [congruence|reflexivity]. Qed.
+
+(* the loop: it stops after k more bytes, those bytes are whole characters, and it stopped because the string ended
+   or because the next character announces more bytes than are left *)
+Lemma trim_at_spec : forall fuel t i, nonul t -> (length t < fuel)%nat ->
+  exists k, trim_at fuel t i = Ok (i + k)%nat /\ (k <= length t)%nat /\ wholechars (firstn k t) /\
+            (k = length t \/ (length t < k + UcDefs.uc_len (skipn k t))%nat).
+Proof.
+  induction fuel as [|f IH]; intros t i F L; [lia|].
+  destruct t as [|b r].
+  { exists 0%nat. cbn [trim_at length firstn]. split; [rewrite Nat.add_0_r; reflexivity|]. split; [lia|]. split; [constructor|left; reflexivity]. }
+  cbn [trim_at]. set (t := b :: r) in *.
+  assert (Hne : t <> []) by (subst t; congruence).
+  pose proof (uc_len_pos t F Hne) as LP.
+  destruct (Nat.leb_spec (UcDefs.uc_len t) (length t)) as [Hfit|Hno].
+  - destruct (IH (skipn (UcDefs.uc_len t) t) (i + UcDefs.uc_len t)%nat) as (k & E & Hk & W & Stop).
+    + apply nonul_skipn. exact F.
+    + rewrite skipn_length. lia.
+    + rewrite skipn_length in Hk.
+      exists (UcDefs.uc_len t + k)%nat. split; [rewrite E; f_equal; lia|]. split; [lia|]. split.
+      * apply wc_cons.
+        -- intro C. apply (f_equal (@length N)) in C. rewrite firstn_length in C. cbn [length] in C. lia.
+        -- assert (HL : length (firstn (UcDefs.uc_len t + k) t) = (UcDefs.uc_len t + k)%nat) by (rewrite firstn_length; lia).
+           assert (HU : UcDefs.uc_len (firstn (UcDefs.uc_len t + k) t) = UcDefs.uc_len t).
+           { subst t. destruct (UcDefs.uc_len (b :: r) + k)%nat eqn:EE; [lia|reflexivity]. }
+           rewrite HU, HL. lia.
+        -- assert (HU : UcDefs.uc_len (firstn (UcDefs.uc_len t + k) t) = UcDefs.uc_len t).
+           { subst t. destruct (UcDefs.uc_len (b :: r) + k)%nat eqn:EE; [lia|reflexivity]. }
+           rewrite HU. rewrite <- firstn_skipn_comm. exact W.
+      * rewrite skipn_length in Stop. rewrite skipn_skipn in Stop.
+        replace (k + UcDefs.uc_len t)%nat with (UcDefs.uc_len t + k)%nat in Stop by lia.
+        destruct Stop as [S1|S1]; [left; lia|right; lia].
+  - exists 0%nat. split; [rewrite Nat.add_0_r; reflexivity|]. split; [lia|]. split; [constructor|]. right. cbn [skipn]. lia.
+Qed.
+
+(* on a string of whole characters the loop runs to the end *)
+Lemma trim_at_whole : forall fuel t i, wholechars t -> (length t < fuel)%nat -> trim_at fuel t i = Ok (i + length t)%nat.
+Proof.
+  induction fuel as [|f IH]; intros t i W L; [lia|].
+  destruct W as [|t Hne HL W]; [cbn; f_equal; lia|].
+  destruct t as [|b r]; [congruence|]. cbn [trim_at]. set (t := b :: r) in *.
+  destruct (Nat.leb_spec (UcDefs.uc_len t) (length t)); [|lia].
+  rewrite IH; [|exact W|rewrite skipn_length; lia]. rewrite skipn_length. f_equal. lia.
+Qed.
+
+Lemma uc_trim_spec s : nonul s ->
+  exists i, uc_trim s = Ok (firstn i s) /\ (i <= length s)%nat /\ wholechars (firstn i s) /\
+            (i = length s \/ (length s < i + UcDefs.uc_len (skipn i s))%nat) /\
+            uc_trim (firstn i s) = Ok (firstn i s).
+Proof.
+  intro F. unfold uc_trim at 1.
+  destruct (trim_at_spec (S (length s)) s 0 F) as (k & E & Hk & W & Stop); [lia|].
+  rewrite E. cbn [bind]. rewrite Nat.add_0_l. destruct (Nat.leb_spec k (length s)); [|lia].
+  exists k. split; [reflexivity|]. split; [exact Hk|]. split; [exact W|]. split; [exact Stop|].
+  unfold uc_trim. rewrite trim_at_whole; [|exact W|lia]. cbn [bind]. rewrite Nat.add_0_l, Nat.leb_refl.
+  f_equal. apply firstn_all.
+Qed.
+
+(* what is kept of a string of whole characters that was first cut to size - 1 bytes: whole characters of the string
+   itself, fewer than size bytes *)
+Lemma cut_store_spec size s : nonul s -> wholechars s ->
+  exists i, cut_store size s = Ok (firstn i s) /\ (i <= size - 1)%nat /\ (i <= length s)%nat /\ wholechars (firstn i s).
+Proof.
+  intros F _. unfold cut_store.
+  destruct (uc_trim_spec (firstn (size - 1) s)) as (i & E & Hi & W & _).
+  { unfold nonul. apply Forall_firstn'. exact F. }
+  rewrite firstn_length in Hi. rewrite firstn_firstn in E, W.
+  replace (Nat.min i (size - 1)) with i in E, W by lia.
+  exists i. split; [exact E|]. split; [lia|]. split; [lia|exact W].
+Qed.
